@@ -430,6 +430,11 @@ class _FnInfo:
                 for t in st.targets: s._bind(t, st.value, ctrl, in_loop)
             elif isinstance(st, ast.AnnAssign) and st.value is not None: s._bind(st.target, st.value, ctrl, in_loop)
             elif isinstance(st, ast.AugAssign): s._bind(st.target, st.value, ctrl | _names(st.target), in_loop)
+            elif isinstance(st, ast.Expr) and isinstance(st.value, ast.Call) and isinstance(st.value.func, ast.Attribute) and isinstance(st.value.func.value, ast.Name) \
+                    and st.value.func.attr in ("append", "extend", "add", "update", "insert", "setdefault", "appendleft") and st.value.func.value.id in s.defs:
+                # a local container filled element by element: its value depends on what is put into it (and on the tests that guard the filling)
+                for a in list(st.value.args) + [k.value for k in st.value.keywords]:
+                    s.defs[st.value.func.value.id].append((a, set(ctrl), in_loop))
             elif isinstance(st, ast.If):
                 only_raise = all(isinstance(b, ast.Raise) for b in st.body) and not st.orelse
                 c2 = ctrl if only_raise else ctrl | _names(st.test)
@@ -465,9 +470,15 @@ class _FnInfo:
         ctrl_acc = set()
         while work:
             e = work.pop()
+            attr_selfs = set()
             for n in ast.walk(e):
                 if isinstance(n, ast.Attribute) and isinstance(n.value, ast.Name) and n.value.id == "self":
-                    deps.add("self." + n.attr)
+                    deps.add("self." + n.attr); attr_selfs.add(id(n.value))
+            for n in ast.walk(e):
+                # the whole object handed to an introspecting builtin (dir(self), getattr(self, name), vars(self)): depends on all of its state
+                if isinstance(n, ast.Call) and isinstance(n.func, ast.Name) and n.func.id in ("dir", "getattr", "vars", "hasattr") and n.args and isinstance(n.args[0], ast.Name) \
+                        and n.args[0].id == "self" and id(n.args[0]) not in attr_selfs:
+                    deps.add("self.*")
             called = _called_names(e)
             for nm in _names(e):
                 if nm in stop or nm in seen or nm == "self": continue
